@@ -720,8 +720,9 @@ def run(tier: str) -> int:
         return any("datekey" in c for cs in conf for c in cs)
     iso = [i for i, it in enumerate(items) if process_wide(it[3]) and (len(it[1]) <= 2 and set(it[2]) == {"sync"} if tier == "quick" else len(it[1]) <= 4)]
     ck.cov["histories_meeting_in_process_wide_state"] = len(iso)
-    if len(iso) > (24 if tier == "quick" else 400):
-        iso = sorted(rnd.sample(iso, 24 if tier == "quick" else 400))
+    cap = 24 if tier == "quick" else 120          # (new processes are created one after the other by the pool: about a second each under load)
+    if len(iso) > cap:
+        iso = sorted(rnd.sample(iso, cap))
     isoset = set(iso)
     rest = [i for i in range(len(items)) if i not in isoset]
     rnd.shuffle(rest)
